@@ -507,7 +507,7 @@ def run_c01(ctx):
                              n_bytes=ctx.n(150, 3000), n_gram=ctx.n(100, 3000))
     for kind, text in gen.codepoint_sweep():
         cases.append(ctx.case(kind, text, gen.random_cfg(rng) if rng.random() < 0.3 else gen.DEFAULT_CFG))
-    ctx.run_stream(cases, units=["settings", "recon", "r01", "tokok", "comment", "lower", "lex"], oracle=oracle)
+    ctx.run_stream(cases, units=["settings", "recon", "r01", "tokok", "comment", "lower", "lex", "e2e"], oracle=oracle)
     ctx.hypotheses["tok_ok (blank leading whitespace, content not starting inside U+3000)"] = "evaluated by unit tokok on every token of every trace"
     ctx.hypotheses["R01 (per-token content relation between lexer output and final tokens)"] = "evaluated by unit r01 on every token of every trace"
 
@@ -682,7 +682,7 @@ def run_c07(ctx):
     for wc in witness_cases(ctx, "C07"):
         wc.meta["regions"] = [wc.input_bytes()]
         cases.append(wc)
-    ctx.run_stream(cases, units=["ignore", "recon", "lower", "comment", "eofnl"], oracle=oracle)
+    ctx.run_stream(cases, units=["ignore", "recon", "lower", "comment", "eofnl", "e2e"], oracle=oracle)
     ctx.hypotheses["no_net inside ignored runs (no safety-net newline inside a region)"] = "region substring oracle on every case; lone-CR terminated comments included in the toggle forms"
     ctx.hypotheses["which lines are AsmInstruction lines (grammar oracle)"] = "asm stream: instruction lines compared byte for byte"
 
@@ -840,7 +840,7 @@ def run_c08(ctx):
     cases += witness_cases(ctx, "C08", wellformed=True)
     wf_cases = [c for c in cases if c.meta.get("wellformed")]
     other = [c for c in cases if not c.meta.get("wellformed")]
-    ctx.run_stream(wf_cases, units=["canon", "lineend", "invariants", "recon", "eofnl", "settings", "wrapapply", "search"], oracle=oracle)
+    ctx.run_stream(wf_cases, units=["canon", "lineend", "invariants", "recon", "eofnl", "settings", "wrapapply", "search", "e2e"], oracle=oracle)
     ctx.run_stream(other, units=["canon", "lineend", "recon", "eofnl", "settings", "wrapapply", "spacing", "search"], oracle=oracle)
     # class attribute of finding F41, decided on the trace, for failures of inputs with disabled regions
     for f in ctx.failures:
@@ -1287,7 +1287,7 @@ def run_c14(ctx):
     for text, kind, wrap in wellformed_texts(ctx, ctx.n(150, 3000))[:: ctx.n(2, 1)]:
         wf.append(ctx.case(kind + "-after-directives", rng.choice(DIR_PREFIXES) + text, gen.DEFAULT_CFG))
     wf += witness_cases(ctx, "C14")
-    ctx.run_stream(wf, units=["passes", "kernel", "grammar", "linescover", "parents", "eofline", "consolidators"])
+    ctx.run_stream(wf, units=["passes", "kernel", "grammar", "linescover", "parents", "eofline", "consolidators", "e2e"])
     inv = []
     texts = [s["text"] for s in gen.seeds()]
     for _ in range(ctx.n(1500, 30000)):
@@ -1670,7 +1670,7 @@ def run_c02(ctx):
         shape = rng.choice(["const\n  C = %s%s%s;%s\n", "const\n  C: Integer = %s%s%s;%s\n  D = 2;\n", "var\n  V: Integer = %s%s%s;%s\n",
                             "type\n  TRec = record\n    F: Integer;\n  end;\nconst\n  K = %s%s%s;%s\n"])
         cases.append(ctx.case("portability", shape % (val, sep, d, trail), gen.random_cfg(rng)))
-    ctx.run_stream(cases, units=["spacing", "generics", "invariants", "relex", "lex", "comment", "lower", "recon", "grammar", "search"])
+    ctx.run_stream(cases, units=["spacing", "generics", "invariants", "relex", "lex", "comment", "lower", "recon", "grammar", "search", "e2e"])
     ctx.hypotheses["the parser is the modelled grammar (C02_parser_only_retypes is a theorem about the model)"] = "unit grammar on every case of the main stream"
     ctx.hypotheses["plan_ok: break after line comments / unterminated literals, inline comments never broken off"] = "re-scan oracle on every case (comment kinds are part of the compared token kinds)"
     ctx.hypotheses["lex_one_local (each sub-lexer depends on its own bytes plus a follow set)"] = "re-scan with the verified model lexer and with the real lexer on every case"
